@@ -291,7 +291,9 @@ def directed_cases():
                     [D, D, ['drop', 0]],                            # the DELETE of the old IKE_SA is lost
                     [D, ['dup', 0], D, D, D],                       # the response arrives twice
                     [['dup', 0], D, D, D, D, D],                    # the request arrives twice
-                    [D, ['drop', 0], ['tick', 2.5], D, D, D, D]):   # the response is lost, the request retransmitted
+                    [D, ['drop', 0], ['tick', 2.5], D, D, D, D],    # the response is lost, the request retransmitted
+                    [['del_ike', o, 0], D, D, D, D],                # the peer's DELETE of the IKE_SA crosses the rekey request
+                    [['del_ike', o, 0], ['deliver', 1], D, D, D]):  # ... and arrives first
             for end in ([], [['del_ike', r, 0], D, D], [['del_ike', o, 0], D, D], [['del_ike', r, 0], D, ['drop', 0]]):
                 for tail in tails:
                     ops = [['rekey_ike', r, 0]] + [list(x) for x in mid] + [list(x) for x in end] + [list(x) for x in tail] + \
